@@ -37,6 +37,12 @@ func cancelEnv() (types.EnvType, *Probe, error) {
 	if err != nil {
 		return nil, nil, err
 	}
+	// a host call that ignores cancellation
+	ns.Set(types.Symbol{Val: "busy!"}, types.Func{Fn: func(_ context.Context, a []types.MalType) (types.MalType, error) {
+		ms, _ := a[0].(int)
+		time.Sleep(time.Duration(ms) * time.Millisecond)
+		return nil, nil
+	}})
 	pre, rerr := lisp.READ(cancelPrelude, nil, ns)
 	if rerr != nil {
 		return nil, nil, rerr
